@@ -13,6 +13,7 @@ import (
 	"strings"
 	"sync/atomic"
 
+	"github.com/icon-project/goloop/common"
 	"github.com/icon-project/goloop/common/codec"
 	"github.com/icon-project/goloop/module"
 	"github.com/icon-project/goloop/service"
@@ -40,25 +41,57 @@ func (c *c16Ctx) realUniverse() *c16RealUni {
 	add("freshEOA", c16FreshEOA, true)
 	add("freshCx(no contract)", c16FreshCx, true)
 	add("chainSCORE", state.SystemAddress, false)
+	add("contractAccount2", c16DeployedCx, false)
 	add("scriptedCx", c.sc.score, false)
 	add("treasury", c.treas, false)
 	add("god", c16God.Address(), false)
 	return u
 }
 
+// index resolves an address to its account by the 20-byte id, as goloop does
+// (hx/cx aliases of one body share the account).
 func (u *c16RealUni) index(addr string) int {
+	id := string(common.MustNewAddressFromString(addr).ID())
 	for i, a := range u.addrs {
-		if a.String() == addr {
+		if string(a.ID()) == id {
 			return i
 		}
 	}
-	return -1
+	panic("address outside the closed universe: " + addr)
+}
+
+type c16Recipient struct{ name, addr string }
+
+func c16Recipients() []c16Recipient {
+	b := c16Other.Address().String()
+	return []c16Recipient{
+		{"freshEOA", c16FreshEOA.String()},
+		{"existingEOA", b},
+		{"freshCx(no contract)", c16FreshCx.String()},
+		{"chainSCORE", c16SystemScore},
+		{"contractAccount2", c16DeployedCx.String()},
+		{"hxAliasOfChainSCORE", c16HxOfSystem.String()},
+		{"hxAliasOfContractAccount2", c16HxOfDeployed.String()},
+		{"cxAliasOfExistingEOA", "cx" + b[2:]},
+	}
+}
+
+func c16RecipientName(addr string) string {
+	for _, r := range c16Recipients() {
+		if r.addr == addr {
+			return r.name
+		}
+	}
+	return addr
 }
 
 // c16RealTxs lists the transactions of family 2 (sender = payer).
 // callBig marks the subset used for quick-tier pairs.
 func c16RealTxs(nonce int) (txs []txSpec, callBig []bool) {
-	recipients := []string{c16FreshEOA.String(), c16Other.Address().String(), c16FreshCx.String(), c16SystemScore}
+	var recipients []string
+	for _, r := range c16Recipients() {
+		recipients = append(recipients, r.addr)
+	}
 	str := func(s string) *string { return &s }
 	huge := new(big.Int).Lsh(big.NewInt(1), 90).String()
 	for _, to := range recipients {
@@ -83,10 +116,10 @@ func c16RealTxs(nonce int) (txs []txSpec, callBig []bool) {
 			if msg {
 				limits = append([]int64{min - 1}, limits...) // out of step before the transfer
 			}
-			for _, v := range []string{"1", huge} {
+			for _, v := range []string{"0", "1", huge} {
 				for _, lim := range limits {
 					txs = append(txs, txSpec{From: 0, To: to, Value: str(v), Limit: lim, Msg: msg, Nonce: nonce})
-					callBig = append(callBig, false)
+					callBig = append(callBig, !msg && v == "1" && lim == c16BigLimit)
 				}
 			}
 		}
@@ -200,7 +233,7 @@ func (e *c16Env) checkReal(c *c16Ctx, u *c16RealUni, cs *c16Case, ref, o *c16Rea
 		want[0].Sub(want[0], fee)
 		want[tIdx].Add(want[tIdx], fee)
 		to := u.index(t.To)
-		kind := u.names[to]
+		kind := c16RecipientName(t.To)
 		if st == module.StatusSuccess {
 			allFailed = false
 			v := bigOf(*t.Value)
@@ -234,7 +267,7 @@ func (e *c16Env) checkReal(c *c16Ctx, u *c16RealUni, cs *c16Case, ref, o *c16Rea
 			default:
 				for _, t := range cs.Block {
 					if u.index(t.To) == i {
-						role = "recipient(" + u.names[i] + ")"
+						role = "recipient(" + c16RecipientName(t.To) + ")"
 					}
 				}
 			}
